@@ -20,9 +20,57 @@ class C01(Prop):
     def observe(self, case):
         return observe_load(case, "C01")
 
+    # ---- the session model (spec/Session.tla): histories of public calls on one object; after every call the loader's columns must be
+    # what they were after loading (unless the model says the frames were re-parsed) and the derived columns must be the model's
+    def extra(self, ctx):
+        import json as _json
+        import random as _random
+        from concurrent.futures import ProcessPoolExecutor
+        from .. import hta, tlc
+        hists, _ = tlc.enumerate_cases("MC_Session", "MC_Session.cfg")
+        rr = _random.Random(ctx.seed)
+        rr.shuffle(hists)
+        n = 120 if ctx.tier == "quick" else 1500
+        jobs = [(ctx.seed, k, h) for k, h in enumerate(hists[:n])]
+        with ProcessPoolExecutor(max_workers=16, initializer=hta.setup) as ex:
+            pairs = list(ex.map(_session_job, jobs, chunksize=4))
+        ctx.validate_pairs(pairs, module="Trace_Session")
+        ctx.validated -= len(pairs)
+        ctx.replayed += len(pairs)
+        ctx.extra_cov["session_histories_replayed"] = len(pairs)
+        ctx.extra_cov["session_histories_in_model"] = len(hists)
+
     def nontrivial(self, case, obs):
+        if obs.get("prop") == "SESSION":
+            return len({s["op"] for s in obs["steps"]}) >= 2
         nonc = any(e["kind"] != "X" for f in obs["files"] for e in f["entries"])
         return bool(case["ranks"][0]["base"] != 0 and nonc and (obs["u"] > 1 or len(obs["files"]) >= 2))
 
 
 PROP = C01()
+
+
+def _session_job(arg):
+    import random
+    from .. import gen, hta, session
+    from .common import case_from_cfg, write_and_load
+    seed, k, hist = arg
+    rng = random.Random(f"{seed}/session/{k}")
+    cfg = gen.GenCfg(n_ranks=rng.choice([1, 2]), n_steps=rng.choice([1, 2, 3]), p_launch=0.6, p_mem=0.3, p_comm=0.3, p_sync=rng.choice([0, 0.1]),
+                     streams=rng.choice([(7,), (7, 9)]), max_children=2, base=rng.choice([0, 1000]), gpu_annotations=rng.random() < 0.5,
+                     zero_len_same_start_ok=False)
+    case = case_from_cfg(rng, cfg)
+    case["id"] = f"SESSION-{seed}-{k}"
+    case["hist"] = hist
+    obs = {"id": case["id"], "prop": "SESSION", "err": "", "base0": "", "steps": []}
+    with hta.CaseDir("sess") as d:
+        try:
+            ta = write_and_load(case, d)
+            session.note_loader_columns(ta)
+            obs["base0"] = session.base_digest(ta)
+            for op in hist:
+                err = session.apply(ta, [op], d)[0]
+                obs["steps"].append({"op": op, "err": "", "callerr": err, "cols": session.derived_cols(ta), "base": session.base_digest(ta)})
+        except BaseException as ex:
+            obs["err"] = hta.exc_str(ex)
+    return case, obs
